@@ -476,6 +476,8 @@ def gen(cs, **opts):
     tickers = ["t%d" % i for i in range(ntk)]
     vol = rng.choice([0.01, 0.02, 0.04])
     prices = 100 * np.exp(np.cumsum(rs.randn(nd, ntk) * vol, axis=0)) * rs.choice([1, 0.2, 5], size=ntk)
+    if opts.get("high_prices") and random.Random(cs ^ 0x4B1D).random() < opts["high_prices"]:
+        prices = prices * 30.0      # index-like quotes in the thousands (drawn from a private stream)
     late = []
     if rng.random() < opts.get("late_p", 0.5):
         for i, tk in enumerate(tickers):
